@@ -33,6 +33,7 @@ Fixpoint fc (e : exp) : ascii :=
   | ENum s => hd0 (Number.number_rewrite s)
   | EStr s => match QuoteMore.choose sty s with QS => "'" | QD => """" end
   | EName n => hd0 n
+  | EBrk _ _ => "["
   | EField p _ | EIndex p _ | ECall p _ _ | EMethod p _ _ _ => fc p
   | EUn Neg _ => "-" | EUn Not _ => "n" | EUn Len _ => "#" | EUn BNot _ => "~"
   | EBin _ l _ => fc l
@@ -62,6 +63,7 @@ Fixpoint wfe (e : exp) : Prop :=
   | ENum s => match s with c0 :: s' => wf_decimal v c0 s' | [] => False end
   | EStr s => forall q, wf_qbody v (qchar q) (Quote.rewrite q s)
   | EName n => wf_name n
+  | EBrk _ _ => False                     (* long-bracket strings are outside the lexical theorem (LexAdj has no case for them) *)
   | EField p n => wfe p /\ prefixlike p = true /\ wf_name n
   | EIndex p k => wfe p /\ prefixlike p = true /\ wfe k /\ isfield k = false
   | ECall f sg args => wfe f /\ prefixlike f = true /\ all args false
@@ -125,7 +127,7 @@ Proof.
 Qed.
 Lemma fc_good : forall e, wfe e -> isfield e = false -> good (fc e) = true.
 Proof.
-  induction e; intros W F; cbn [fc]; try reflexivity; try discriminate.
+  induction e; intros W F; cbn [fc]; try reflexivity; try discriminate; try (exfalso; exact W).
   - cbn [wfe] in W. destruct s as [|c0 s']; [contradiction|]. destruct (wf_decimal_digit _ _ W) as [D _].
     rewrite (number_rewrite_digit c0 s' D). cbn [hd0]. unfold good. rewrite D. apply orb_true_iff. left. apply orb_true_iff. left. apply orb_true_iff. left.
     apply orb_true_iff. left. apply orb_true_iff. left. apply orb_true_iff. left. apply orb_true_iff. left. apply orb_true_r.
@@ -237,6 +239,7 @@ Proof.
     rewrite (number_rewrite_digit c0 s' D). constructor; [exact W|constructor].
   - constructor; [|constructor]. unfold pstr. cbn [wfe] in W. specialize (W (QuoteMore.choose sty s)). destruct (QuoteMore.choose sty s); cbn [qkind_of LexAdj.wf_tok]; (split; [reflexivity|exact W]).
   - constructor; [exact W|constructor].
+  - destruct W.
   - destruct W as (W & _ & N). apply Forall_app. split; [apply IHe; exact W|]. constructor; [apply wf_kw_sym; reflexivity|]. constructor; [exact N|constructor].
   - destruct W as (W1 & _ & W2 & _). apply Forall_app. split; [apply IHe1; exact W1|]. constructor; [apply wf_kw_sym; reflexivity|].
     apply Forall_app. split; [apply IHe2; exact W2|]. constructor; [apply wf_kw_sym; reflexivity|constructor].
@@ -324,7 +327,7 @@ Proof. unfold pargs, gap_call, gap_sugar. destruct b; [reflexivity|]. destruct (
 (* a string or a table is compatible with whatever follows it *)
 Lemma adj_sugar_indep d x nx nx' : sugarable [x] = true -> adj_ok (pexp d x) nx = adj_ok (pexp d x) nx'.
 Proof.
-  destruct x; try discriminate; intros _; [reflexivity| |].
+  destruct x; try discriminate; intros _; [reflexivity|reflexivity| |].
   - destruct fs as [|f fs]; [reflexivity|].
     change (pexp d (ETable (f :: fs))) with (kw "{" :: sp :: commas (map (pexp d) (f :: fs)) ++ [sp; kw "}"]).
     rewrite !adj_cons, !adj_app.
@@ -419,6 +422,7 @@ Proof.
   - (* number *) rewrite adj_cons, andb_true_r. cbn [safe nextc]. apply clo_num. eapply okn_clo; [|exact K]; reflexivity.
   - (* string *) unfold pstr. reflexivity.
   - (* name *) rewrite adj_cons, andb_true_r. cbn [safe nextc]. apply (okn_word _ _ K).
+  - (* long string: outside the premise *) destruct W.
   - (* p.n *) destruct W as (W & P & N). rewrite adj_app. apply andb_true_iff. split.
     + apply IHe; [exact W|]. apply okn_of_clop; [exact P|reflexivity].
     + rewrite adj_cons. apply andb_true_iff. split.
@@ -518,6 +522,7 @@ Fixpoint wfe1 (e : exp) : Prop :=
   | ENum s => match s with c0 :: s' => wf_decimal v c0 s' | [] => False end
   | EStr s => forall q, wf_qbody v (qchar q) (Quote.rewrite q s)
   | EName n => wf_name n
+  | EBrk _ _ => False
   | EField p n => wfe1 p /\ prefixlike p = true /\ wf_name n
   | EIndex p k => wfe1 p /\ prefixlike p = true /\ wfe1 k /\ isfield k = false
   | ECall f sg args => wfe1 f /\ prefixlike f = true /\ all args false
